@@ -49,6 +49,10 @@ P = {
          "Lean 4 theorems (EmdModel/Kdt.lean) for every query table (D, inds): equal lengths; x indices strictly increasing and < nx; y indices < ny; y indices pairwise distinct (loop invariant: marks are a partial injection rows <-> selected values, proved by induction over columns with no hypothesis on the query); pairs one-to-one; at most one mark per row. Under the validated cKDTree contract WFQuery: each pair lies in the K-neighbour list of its row at a finite distance <= bound; the marker matrix equals its greedy specification. The pinned _unique_inds is proved non-injective on a witness. Correspondence: (x_inds, y_inds) exact against the real kdt_match with the real cKDTree.query table fed to the model: 1-4 features, 1-200 rows, ties/duplicates, K 1..15 and K>ny, three bounds, plus an exhaustive 1-D integer grid; brute-force instance checks of the property's own words.",
          "Trusted: Lean kernel + standard axioms; model + harness; the KD-tree query is an oracle whose contract (row shape, (inf, ny) padding, sorted distances, distinct neighbours, distances <= bound) is Kdt.wfCheck, proved equivalent to WFQuery and evaluated on every real query result; that the rows really are the K nearest points is scipy's contract (the instance check recomputes it by brute force). Closest-claimant / first-neighbour checks evaluate the anchored mechanism, not the property text: they count as correspondence, never as a property violation. Defects D13, D21 repaired in /repo.",
          "Lean 4 proof over hand-written model + differential correspondence with the implementation", '5 C17'),
+ 'C05': (True,
+         "Lean 4 theorems over the executable model EmdModel/Extrema.lean, for every signal, pad width, mode, refinement flag and every interpolant: extrema are exactly the strict interior maxima/minima, sorted and never adjacent; None is returned exactly with fewer than two extrema; parabolic refinement stays within +-1/2 sample and strictly ordered; padding leaves the interior untouched, adds equally many odd-reflected locations beyond both ends (incl. numpy's multi-chunk case), strictly ordered, with edge-replicated magnitudes, covers [0,n), and the re-padding loop terminates within n+1 rounds; the evaluation grid is the sample grid 0..n-1 (also for fractional locations), the envelope has n values equal to the interpolant at integer times, and passes through unrefined peaks/troughs under the interpolation contract. Tied to /repo by exhaustive correspondence (all 3-level sequences of length <= 7/9 x pad 0..5 x 3 modes, exact) plus random signals with ties and an envelope stream (parabolic on/off x 3 interpolants x 3 modes).",
+         'Trusted: Lean kernel + propext/Classical.choice/Quot.sound; model + harness; the scipy interpolant is an oracle (rebuilt by the harness with the same constructor from the returned extrema; knot interpolation validated each run); the np.pad model is itself checked against real np.pad. Parabolic-mode floats compared within 1e-9 with ill-conditioned/near-tie cases skipped and counted; custom np.pad option dicts are outside the model. Defect D17 repaired in /repo.',
+         "Lean 4 proof over hand-written model + differential correspondence with the implementation", '5 C05'),
 }
 ALL = ['C%02d' % i for i in range(1, 21)]
 
